@@ -286,7 +286,7 @@ pub fn run(ctx: &Ctx, rep: &mut Report) {
         }
     }
     // (2) valid messages of every type, random splits, decode on: fragmented == unfragmented
-    for i in 0..ctx.budget(25_000, 1_200_000) {
+    for i in 0..ctx.budget(60_000, 2_000_000) {
         let br = r.pick(gen::BRANCHES);
         let bits = gen::gen_message(br, &mut r);
         let (chars, fill) = bits.to_armor();
@@ -299,7 +299,7 @@ pub fn run(ctx: &Ctx, rep: &mut Report) {
         run_case(rep, &mut r, &c);
     }
     // (3) repository vectors and random armored text / arbitrary non-comma bytes
-    for i in 0..ctx.budget(8_000, 300_000) {
+    for i in 0..ctx.budget(30_000, 600_000) {
         let payload: Vec<u8> = match i % 3 {
             0 => r.pick(nmea_ref::PAYLOADS).to_vec(),
             1 => {
